@@ -69,7 +69,11 @@ def bits (l : List Bool) : String := hx (bitBytes l)
 
 def out : Out → String
   | .ok => "ok" | .okNew => "new" | .refused => "refused" | .banned => "banned"
-  | .dropped => "dropped" | .stored => "stored" | .stats w => week w
+  | .dropped => "dropped" | .stored => "stored"
+  | .stats w =>
+    -- outside the proved model: the reply is JSON, which has no notation for NaN or the infinities, so a
+    -- week that holds a non-finite impact rate (exponent bits all ones) cannot be served: HTTP 500
+    if w.devs.any (fun d => d.impacts.any (fun b => b / 2^52 % 2048 == 2047)) then "refused" else week w
   | .syncRefused => "refused"
   | .syncReply key off b mig servers =>
     let m := match mig with
